@@ -140,8 +140,13 @@ func (s *sched) deliverLocked(it *item) {
 	}()
 	switch it.kind {
 	case "chunk":
+		s.amu.Lock()
 		s.arrID++
 		id := s.arrID
+		s.nonce++
+		nonce := nonceBase + s.nonce
+		s.amu.Unlock()
+		l.smu.Lock()
 		s.w.log.add(Ev{K: "chunk-start", P: it.peer, C: -1, A: id, H: it.h, F: it.f, I: it.i, B: hexs(it.bytes), Miss: it.missing, Sol: it.sol})
 		ok := false
 		if peer != nil {
@@ -153,15 +158,16 @@ func (s *sched) deliverLocked(it *item) {
 		}
 		s.w.log.add(Ev{K: "chunk-done", P: it.peer, C: -1, A: id, OK: ok})
 		if !ok {
+			l.smu.Unlock()
 			return
 		}
-		s.nonce++
-		nonce := nonceBase + s.nonce
 		aw := &ackWait{id: id, peer: it.peer, ch: make(chan struct{})}
 		s.amu.Lock()
 		s.chunkAw[nonce] = aw
 		s.amu.Unlock()
-		if !p2p.SendEnvelopeShim(peer, p2p.Envelope{ChannelID: statesync.ChunkChannel, Message: &ssproto.ChunkRequest{Height: nonce, Format: 0, Index: 0}}, nil) { //nolint:staticcheck
+		sent := p2p.SendEnvelopeShim(peer, p2p.Envelope{ChannelID: statesync.ChunkChannel, Message: &ssproto.ChunkRequest{Height: nonce, Format: 0, Index: 0}}, nil) //nolint:staticcheck
+		l.smu.Unlock()
+		if !sent {
 			return
 		}
 		select {
@@ -176,6 +182,7 @@ func (s *sched) deliverLocked(it *item) {
 		l.mu.Lock()
 		l.ever[it.snap] = true
 		l.mu.Unlock()
+		l.smu.Lock()
 		s.w.log.add(Ev{K: "adv-start", P: it.peer, C: -1, A: id, H: sp.Height, F: sp.Format, NCh: sp.Chunks, Hash: sp.Hash, Meta: sp.Meta, X: sp.Kind})
 		ok := false
 		if peer != nil {
@@ -184,13 +191,16 @@ func (s *sched) deliverLocked(it *item) {
 		}
 		s.w.log.add(Ev{K: "adv-done", P: it.peer, C: -1, A: id, OK: ok})
 		if !ok {
+			l.smu.Unlock()
 			return
 		}
 		aw := &ackWait{id: id, peer: it.peer, ch: make(chan struct{})}
 		s.amu.Lock()
 		s.advAw = aw
 		s.amu.Unlock()
-		if !p2p.SendEnvelopeShim(peer, p2p.Envelope{ChannelID: statesync.SnapshotChannel, Message: &ssproto.SnapshotsRequest{}}, nil) { //nolint:staticcheck
+		sent := p2p.SendEnvelopeShim(peer, p2p.Envelope{ChannelID: statesync.SnapshotChannel, Message: &ssproto.SnapshotsRequest{}}, nil) //nolint:staticcheck
+		l.smu.Unlock()
+		if !sent {
 			return
 		}
 		select {
@@ -386,7 +396,14 @@ func (s *sched) exec(a Action, ctx holdCtx) {
 			}
 			it := &item{kind: "chunk", peer: peer, h: h, f: f, i: idx, bytes: b}
 			if a.Kind == "push-async" {
-				go s.deliver(it) // the hold does not wait: the chunk is in flight while the app's response is handled
+				// not serialised with the other deliveries and not awaited: the chunk is in flight
+				// while the app's response is handled
+				go s.deliverLocked(it)
+				d := a.DelayMs
+				if d <= 0 {
+					d = 4
+				}
+				time.Sleep(time.Duration(d) * time.Millisecond)
 			} else {
 				s.deliver(it)
 			}
